@@ -440,6 +440,14 @@ def r14_5(run):
         cr = run.idx.find_method(ci, 'create')
         init = run.idx.find_method(ci, '__init__')
         ctor = [c for c in calls_in(cr) if dotted(c.func) == cname]
+        def _desc(u_):
+            out_ = []
+            for ch in u_.children:
+                out_.append(ch)
+                out_.extend(_desc(ch))
+            return out_
+        if not ctor and any(dotted(c.func) == cname for ch in _desc(cr) for c in calls_in(ch)):
+            raise Undecided('%s.create builds the service object inside a nested callback: the option flow is not followed through explicit callback chains' % cname)
         run.ob('R14.5', cr, cr.node, '%s.create builds exactly one service object' % cname, len(ctor) == 1, slot='ctor:%s' % cname, message='%d constructor calls' % len(ctor))
         for c in ctor:
             kw = dict((k.arg, dotted(k.value)) for k in c.keywords)
